@@ -162,6 +162,49 @@ type Builder struct {
 	tab  map[key]*Term
 	next uint32
 	Vars []*Term
+	// Ranges holds unsigned interval facts [lo,hi] for variables, harvested by the interpreter from
+	// asserted comparisons with constants. They only ever fold comparisons that are implied by the
+	// path condition, so they never change a verdict.
+	Ranges map[*Term][2]uint64
+}
+
+// rangeOf returns the known unsigned interval of x (a variable, possibly zero-extended).
+func (b *Builder) rangeOf(x *Term) (lo, hi uint64, ok bool) {
+	if b.Ranges == nil {
+		return 0, 0, false
+	}
+	if x.Op == OpZExt {
+		x = x.A[0]
+	}
+	if x.Op != OpVar {
+		return 0, 0, false
+	}
+	r, ok := b.Ranges[x]
+	return r[0], r[1], ok
+}
+
+// Narrow records lo <= v <= hi for variable v (intersected with what is known).
+func (b *Builder) Narrow(v *Term, lo, hi uint64) {
+	if v.Op == OpZExt {
+		v = v.A[0]
+	}
+	if v.Op != OpVar || v.W == 0 {
+		return
+	}
+	if b.Ranges == nil {
+		b.Ranges = map[*Term][2]uint64{}
+	}
+	cur, ok := b.Ranges[v]
+	if !ok {
+		cur = [2]uint64{0, mask(v.W)}
+	}
+	if lo > cur[0] {
+		cur[0] = lo
+	}
+	if hi < cur[1] {
+		cur[1] = hi
+	}
+	b.Ranges[v] = cur
 }
 
 func NewBuilder() *Builder { return &Builder{tab: map[key]*Term{}, next: 1 << 24} }
@@ -336,6 +379,14 @@ func (b *Builder) Eq(x, y *Term) *Term {
 		x, y = y, x
 	}
 	if y.Op == OpConst {
+		if lo, hi, ok := b.rangeOf(x); ok {
+			if y.K < lo || y.K > hi {
+				return False
+			}
+			if lo == hi {
+				return True
+			}
+		}
 		// eq(zext(a), c): c out of range => false; else eq(a, trunc c)
 		if x.Op == OpZExt {
 			in := x.A[0]
@@ -384,6 +435,26 @@ func (b *Builder) Ult(x, y *Term) *Term {
 	}
 	if x.Op == OpConst && x.K == mask(x.W) {
 		return False
+	}
+	if y.Op == OpConst {
+		if lo, hi, ok := b.rangeOf(x); ok {
+			if hi < y.K {
+				return True
+			}
+			if lo >= y.K {
+				return False
+			}
+		}
+	}
+	if x.Op == OpConst {
+		if lo, hi, ok := b.rangeOf(y); ok {
+			if x.K < lo {
+				return True
+			}
+			if x.K >= hi {
+				return False
+			}
+		}
 	}
 	if y.Op == OpConst && x.Op == OpZExt && y.K > mask(x.A[0].W) {
 		return True
